@@ -18,6 +18,7 @@ use crate::{
     readcondition::*,
     result::ReadResult,
     statusevents::*,
+    topic::TopicKind,
     with_key::{datasample::*, simpledatareader::*},
     ReadError,
   },
@@ -98,7 +99,15 @@ where
   // the serialized payload and stores the DataSamples (the actual data and the
   // samplestate) to local container, datasample_cache.
   fn fill_and_lock_local_datasample_cache(&mut self) -> ReadResult<()> {
+    // A NO_KEY topic has no instances to dispose. If a (foreign) writer sends a
+    // dispose anyway, do not store it: the no_key DataReader never delivers it,
+    // but it would count against max_samples in read and take, which then report
+    // "nothing more" although samples are available.
+    let no_key = self.simple_data_reader.topic().kind() == TopicKind::NoKey;
     while let Some(dcc) = self.simple_data_reader.try_take_one()? {
+      if no_key && matches!(dcc.sample, Sample::Dispose(_)) {
+        continue;
+      }
       self
         .datasample_cache
         .fill_from_deserialized_cache_change(dcc);
